@@ -438,8 +438,7 @@ fn seeds(thorough: bool) -> Vec<Def> {
     }
     // every way a flatten field can hold its child (every forwarding impl of metrique-core and every
     // CloseValue impl producing one), below a renaming root with a container prefix, one and two
-    // flatten prefixes above; the child has a plain field and (where the wrapper forwards it) a
-    // sample-group field
+    // flatten prefixes above; the child has a plain field and a sample-group field
     for &s in styles {
         let leaf = |sg: bool| {
             let mut f = vec![plain_u("fooBar")];
@@ -451,7 +450,7 @@ fn seeds(thorough: bool) -> Vec<Def> {
         let mut mid_fields = vec![];
         let mut top_fields = vec![plain_u("top_n")];
         for (i, w) in Wrap::ALL.iter().copied().enumerate() {
-            let sg = !w.drops_sample_group();
+            let sg = true;
             let f = flw(Some(Pfx::Infl(format!("w{i}{}_", w.tok()))), w, i % 3 == 1, leaf(sg));
             if w.by_value_only() {
                 top_fields.push(f);
@@ -822,7 +821,6 @@ fn main() {
         let max_depth = if thorough { 5 } else { 3 };
         let mut used: usize = cases.iter().map(type_count).sum();
         let mut g = Gen::new(rng.fork(2));
-        g.wrapper_sample_groups = args.extra.get("wrapper-sample-groups").map(|v| v == "1").unwrap_or(false);
         let mut inst_rng = rng.fork(3);
         let mut trees = 0;
         while used < budget {
